@@ -50,6 +50,8 @@ def items(tier, seed):
     out += [("nic_v2-%d%d" % (a, b), {"a": a, "b": b}) for a in (0, 1) for b in (0, 1)]     # b = NICbc (one bit used)
     out += [("mono-nuc_p", {}), ("mono-nuc_v", {}), ("mono-nac_v", {}), ("mono-sil", {})]
     out += [("mono-nac_p-%d-%d-%d" % (a, b, h), {"tcs": [a, b], "half": h}) for a in (29, 31) for b in (29, 31) for h in (0, 1)]
+    # history mode (harness.decide): the same call on an earlier frame with another ME field first
+    out += [(n + "@after:ME", dict(prm)) for n, prm in out if n in ("nuc_p", "nuc_v", "nac_v", "nic_b", "tc28-emergency_state", "version")]
     v1 = [(0,), (1,)]
     v2 = [(a, b) for a in (0, 1) for b in (0, 1)]
     for i, x in enumerate(v1):
@@ -276,8 +278,12 @@ def run_item(item):
         if name == "nuc_p":
             item.encoded("pyModeS.decoder.adsb.nuc_p")
             run("pyModeS.adsb.nuc_p", pm.adsb.nuc_p, (), dom,
-                lambda v: H.zand(isinstance(v, tuple) and len(v) == 4, H.int_eq(v[0], table(NUCP_BY_TC))
-                                 if isinstance(v, tuple) and len(v) == 4 else False))
+                lambda v: H.zand(isinstance(v, tuple) and len(v) == 4, H.int_eq(v[0], table(NUCP_BY_TC)),
+                                 # vertical containment exists for GNSS height only: 4 m (TC20), 15 m (TC21)
+                                 (z3.And(tc != 20, tc != 21) if v[3] is None else
+                                  z3.Or(z3.And(tc == 20, H.int_eq(v[3], 4)), z3.And(tc == 21, H.int_eq(v[3], 15)))
+                                  if H.is_int_like(v[3]) else False))
+                if isinstance(v, tuple) and len(v) == 4 else False)
         elif name.startswith("nic_v1"):
             item.encoded("pyModeS.decoder.adsb.nic_v1")
             run("pyModeS.adsb.nic_v1", pm.adsb.nic_v1, (prm["s"],), dom,
